@@ -1,17 +1,20 @@
 /-
   C17 — domain rule lists (`/repo/ruleset/regexp.go`).
 
-  What the code does: every rule is a Go regular expression (`regexp.Compile`, Perl syntax); the
-  *source texts* of the include rules are concatenated with `|` and compiled again, likewise the
-  exclude rules; `Match s = ¬ exclude.MatchString s ∧ include.MatchString s`, possibly inverted.
+  What the code does: every rule is a Go regular expression (`regexp.Compile`, Perl syntax);
+  `NewRegexpMatcher` keeps the include rules and the exclude rules as two slices of compiled
+  expressions and `match` evaluates every rule ON ITS OWN: some exclude rule matches ⇒ false; else
+  some include rule matches ⇒ true; else false; `Match` inverts the answer when `inverse` is set.
+  (Before the repair of F10/F26 the rules' source texts were joined with `|` and compiled again;
+  that construction survives only in the last section of this file, marked as pre-repair.)
 
-  The model therefore contains the fragment of Go's `regexp/syntax` parser that decides the
-  property: a byte-level lexer (`lexStep`, a left-to-right state machine exactly like the loop of
+  The model contains the fragment of Go's `regexp/syntax` parser that decides what ONE rule
+  matches: a byte-level lexer (`lexStep`, a left-to-right state machine exactly like the loop of
   `syntax.parse`), a token-level stack machine (`act`, Go's operator stack), *flag resolution*
   (`rx`/`flagsAfter`: a flag group `(?i)` changes the flags until the end of the enclosing group;
   `|` does NOT reset them; `)` restores the flags in force at the matching `(`), and a total
-  matcher with unanchored-search semantics (`ends`, sets of end positions).  Joining is done on the
-  text (`joinSrc`), so the flag leak of the unchanged tree (F10) is reproduced.
+  matcher with unanchored-search semantics (`ends`, sets of end positions).  This part is validated
+  rule by rule against Go's `regexp` on every run.
 
   Domain of the model: patterns and subjects over ASCII bytes; pattern syntax: literals, escapes
   (`\.` …, `\d \w \s \D \W \S`, `\A \z \b \B`, `\n \t \r \f \v \a`), `.`, classes `[...]`/`[^...]`
@@ -487,11 +490,16 @@ def searchRx (r : Rx) (s : Bytes) : Bool :=
 
 `syntax.parse` factors common prefixes out of alternations; its second round compares the leading
 pieces with `Regexp.Equal`, which for literals compares the runes only and not the fold-case flag,
-and a case-folded literal is stored as its upper-case rune.  So `B.|(?i:b.)` becomes `B(?:.|.)`
-and no longer matches `bx` (confirmed on go1.23).  `foldRisk` is a decidable over-approximation of
-the inputs on which that can happen: some alternation has an upper-case case-sensitive literal in
-one branch and the same letter case-folded in another.  Outside it the model and `regexp` agree on
-every generated case; inside it the correspondence is not claimed. -/
+and a case-folded literal is stored as its upper-case rune.  So the single pattern `B.|(?i:b.)`
+becomes `B(?:.|.)` and no longer matches `bx` (confirmed on go1.23).  This is a property of the
+library's treatment of ONE expression: since the repair the code never builds an alternation of
+its own, so the deviation can only occur inside a rule that the user wrote as such an alternation —
+and there the rule "taken on its own" is, by the property's own reading, whatever `regexp` makes of
+it.  `foldRisk` is a decidable over-approximation of the expressions on which that can happen: some
+alternation has an upper-case case-sensitive literal in one branch and the same letter case-folded
+in another.  For a rule inside it the model's regular-expression semantics are not claimed to be
+`regexp`'s (the harness does not compare that rule); outside it model and `regexp` agree on every
+generated case. -/
 
 /-- literal leaves of an expression: (byte, case-folded?) -/
 def CM.lits : CM → List (UInt8 × Bool)
@@ -549,68 +557,57 @@ def parseItem (val : Bytes) : Except Err Rule :=
 /-- `RegexpListItem.String` -/
 def printItem (r : Rule) : Bytes := if r.exclude then 45 :: r.src else r.src
 
+/-- the two `append` loops of `NewRegexpMatcherFromList`: both keep the order of the list -/
 def includes (l : List Rule) : List Rule := l.filter (fun r => !r.exclude)
 def excludes (l : List Rule) : List Rule := l.filter (fun r => r.exclude)
 
-/-- the `strings.Builder` loop of `build`: sources joined with `|` -/
-def joinSrc : List Bytes → Bytes
-  | [] => []
-  | [a] => a
-  | a :: b :: rest => a ++ 124 :: joinSrc (b :: rest)
+/-- the `*regexp.Regexp` values of a slice of rules: every source text compiled ON ITS OWN, in
+    order.  A text that is not a regular expression has no `*regexp.Regexp` value
+    (`ParseRegexpListItem` refuses it), so it cannot occur in a slice handed to the code; the
+    model reports the first such text instead of inventing an expression for it. -/
+def compileAll : List Bytes → Except Err (List Rx)
+  | [] => .ok []
+  | a :: rest =>
+    match compile a with
+    | .error e => .error e
+    | .ok x =>
+      match compileAll rest with
+      | .error e => .error e
+      | .ok xs => .ok (x :: xs)
 
-inductive Built where
-  | nil                 -- `build` returned nil (joined text empty)
-  | re (r : Rx)
-  | panic (e : Err)     -- `regexp.MustCompile` would panic
-  deriving Repr
-
-def build (srcs : List Bytes) : Built :=
-  let s := joinSrc srcs
-  if s.isEmpty then .nil
-  else match compile s with
-    | .ok r => .re r
-    | .error e => .panic e
-
+/-- `RegexpMatcher`: the include and the exclude rules, one compiled expression per rule -/
 structure Matcher where
-  incl : Option Rx
-  excl : Option Rx
+  incl : List Rx
+  excl : List Rx
   inverse : Bool := false
   deriving Repr
 
 inductive Res where
   | ok (m : Matcher)
   | noInclude             -- ErrNoIncludeRules
-  | panic (e : Err)
+  | panic (e : Err)       -- a slice entry that is no regular expression (nil `*regexp.Regexp`)
   deriving Repr
 
-def Built.toOpt : Built → Option Rx
-  | .re r => some r
-  | _ => none
-
-def Built.err? : Built → Option Err
-  | .panic e => some e
-  | _ => none
-
-/-- `NewRegexpMatcher` on the rules' source texts -/
+/-- `NewRegexpMatcher`, the rules given by their source texts: `len(include) == 0` is refused,
+    otherwise the two slices are cloned as they are — nothing is joined, nothing recompiled -/
 def newMatcher (incl excl : List Bytes) : Res :=
   if incl.isEmpty then .noInclude
-  else match (build incl).err?, (build excl).err? with
-    | some e, _ => .panic e
-    | none, some e => .panic e
-    | none, none => .ok { incl := (build incl).toOpt, excl := (build excl).toOpt }
+  else match compileAll incl, compileAll excl with
+    | .error e, _ => .panic e
+    | .ok _, .error e => .panic e
+    | .ok is, .ok es => .ok { incl := is, excl := es }
 
 /-- `NewRegexpMatcherFromList` -/
 def fromList (l : List Rule) : Res :=
   newMatcher ((includes l).map (·.src)) ((excludes l).map (·.src))
 
-def optSearch (r : Option Rx) (s : Bytes) : Bool :=
-  match r with
-  | some x => searchRx x s
-  | none => false
+/-- one `for _, r := range rules { if r.MatchString(s) { return … } }` loop of `match` -/
+def anySearch (rs : List Rx) (s : Bytes) : Bool := rs.any (fun x => searchRx x s)
 
-/-- `(*RegexpMatcher).match` -/
+/-- `(*RegexpMatcher).match`: some exclude rule matches ⇒ false; else some include rule matches
+    ⇒ true; else false -/
 def Matcher.matchRaw (m : Matcher) (s : Bytes) : Bool :=
-  if optSearch m.excl s then false else optSearch m.incl s
+  if anySearch m.excl s then false else anySearch m.incl s
 
 /-- `(*RegexpMatcher).Match` -/
 def Matcher.matches (m : Matcher) (s : Bytes) : Bool :=
@@ -619,63 +616,25 @@ def Matcher.matches (m : Matcher) (s : Bytes) : Bool :=
 /-- `(*RegexpMatcher).Inverse` -/
 def Matcher.inv (m : Matcher) : Matcher := { m with inverse := !m.inverse }
 
-/-! ### The property, decidable form, and the hypothesis that excludes F10 -/
+/-! ### The property, decidable form -/
 
 /-- what the property demands: some include rule matches on its own and no exclude rule does -/
 def specMatch (l : List Rule) (s : Bytes) : Bool :=
   (includes l).any (·.search s) && !(excludes l).any (·.search s)
-
-/-- a rule is *flag-neutral at top level*: read from the default flags, the parser ends with the
-    default flags again (in particular: no unscoped flag group outside every group) -/
-def neutralSrc (src : Bytes) : Bool :=
-  match branchesOf src with
-  | .ok bs => flagsAfter (mkAlt bs) dflt == dflt
-  | .error _ => false
-
-/-- no rule but the last leaks flags into its successors -/
-def leakFree : List Bytes → Bool
-  | [] => true
-  | [_] => true
-  | a :: b :: rest => neutralSrc a && leakFree (b :: rest)
-
-/-- syntactic sufficient condition: no flag group among the top-level items -/
-def Raw.noTopFlags : Raw → Bool
-  | .flags _ _ => false
-  | .cat a b => a.noTopFlags && b.noTopFlags
-  | .alt a b => a.noTopFlags && b.noTopFlags
-  | _ => true
-
-def topFlagFree (bs : List (List Raw)) : Bool := bs.all (fun b => b.all Raw.noTopFlags)
 
 def validSrc (src : Bytes) : Bool :=
   match compile src with
   | .ok _ => true
   | .error _ => false
 
-/-- the candidate repair of F10: every source wrapped in `(?:` … `)` before joining -/
-def wrapSrc (src : Bytes) : Bytes := [40, 63, 58] ++ src ++ [41]
-
 /-- every rule of the list is a valid, non-empty regular expression (the property's quantifier) -/
 def Valid (l : List Rule) : Prop := ∀ r ∈ l, validSrc r.src = true ∧ r.src ≠ []
-
-/-- no include rule but the last include rule, and no exclude rule but the last exclude rule, has
-    an unscoped top-level flag change: the hypothesis that excludes defect F10 -/
-def LeakFree (l : List Rule) : Prop :=
-  leakFree ((includes l).map (·.src)) = true ∧ leakFree ((excludes l).map (·.src)) = true
-
-/-- every rule is flag-neutral at top level (stable under permutation, implies `LeakFree`) -/
-def FlagNeutral (l : List Rule) : Prop := ∀ r ∈ l, neutralSrc r.src = true
-
-/-- the list with every source wrapped in `(?:…)` (candidate repair of F10) -/
-def wrapAll (l : List Rule) : List Rule := l.map fun r => { r with src := wrapSrc r.src }
 
 /-- the property's right-hand side: some include rule matches on its own, no exclude rule does -/
 def Spec (l : List Rule) (s : Bytes) : Prop :=
   (∃ r ∈ includes l, r.search s = true) ∧ ¬ ∃ r ∈ excludes l, r.search s = true
 
 instance (l : List Rule) : Decidable (Valid l) := by unfold Valid; infer_instance
-instance (l : List Rule) : Decidable (LeakFree l) := by unfold LeakFree; infer_instance
-instance (l : List Rule) : Decidable (FlagNeutral l) := by unfold FlagNeutral; infer_instance
 instance (l : List Rule) (s : Bytes) : Decidable (Spec l s) := by unfold Spec; infer_instance
 
 /-- `Match` of the matcher built from a list, when construction succeeds -/
@@ -685,6 +644,25 @@ def matchesOf (l : List Rule) (s : Bytes) : Option Bool :=
   | _ => none
 
 def isAscii (s : Bytes) : Bool := s.all (fun c => c < 128)
+
+/-! ### The pre-repair construction (NOT what the code does any more)
+
+Before the repair of F10/F26 `NewRegexpMatcher` joined the rules' *source texts* with `|` and
+compiled the joined text as one expression.  `joinSrc`/`joinedSearch` reproduce that construction;
+they are used only by the kernel-checked witnesses of the section "Why the rules must not be
+joined" in `Theorems/C17.lean` and by no definition above. -/
+
+/-- pre-repair: the `strings.Builder` loop of the removed `build` closure, sources joined with `|` -/
+def joinSrc : List Bytes → Bytes
+  | [] => []
+  | [a] => a
+  | a :: b :: rest => a ++ 124 :: joinSrc (b :: rest)
+
+/-- pre-repair: `MatchString` of the one expression compiled from the joined text -/
+def joinedSearch (srcs : List Bytes) (s : Bytes) : Bool :=
+  match compile (joinSrc srcs) with
+  | .ok x => searchRx x s
+  | .error _ => false
 
 end C17
 end FwdVerif
